@@ -406,6 +406,20 @@ var totals = map[string]int{}
 func addCase(w *lib.Writer, j Job, r Result) {
 	id := w.NextID()
 	switch j.Kind {
+	case "limit":
+		c := lib.Case{Input: j, KF: j.KF, Class: "limit-" + j.Limit.Mode, Observed: map[string]any{"status": r.Status, "msg": trunc(r.Msg, 800), "counts": r.Stress}}
+		if r.Status == "ok" && r.Stress != nil {
+			o := r.Stress
+			c.Coq = fmt.Sprintf("CStress %d %d %d %d %d", o.Sent, o.Recvd, o.Dups, o.Early, o.Disorder)
+			// non-trivial only if some calls really failed at the limit and were retried
+			c.Nontrivial = !strings.HasSuffix(r.Msg, ": 0")
+			w.Add(c)
+			return
+		}
+		c.Class += "-" + r.Status
+		c.Coq = failingTerm
+		w.Add(c)
+		w.GoFail(id, "receive-at-the-limit run: "+r.Status+": "+trunc(r.Msg, 1200))
 	case "make":
 		c := lib.Case{Input: j, KF: j.KF, Class: "make", Observed: map[string]any{"status": r.Status, "msg": trunc(r.Msg, 800), "make": r.Make}}
 		if r.Status == "ok" && r.Make != nil {
@@ -413,7 +427,7 @@ func addCase(w *lib.Writer, j Job, r Result) {
 			for i, n := range r.Make.Sizes {
 				it[i] = "(" + lib.CoqZ(n) + ", " + lib.CoqBool(r.Make.Ok[i]) + ")"
 			}
-			c.Coq = "CMake " + lib.CoqList(it) + " " + lib.CoqBool(r.Make.NeighbourOK)
+			c.Coq = "CMake " + lib.CoqList(it) + " " + lib.CoqBool(r.Make.NeighbourOK && r.Make.EmptySelectRefused)
 			c.Nontrivial = len(it) >= 3
 			w.Add(c)
 			return
